@@ -190,6 +190,65 @@ def sets_bit(body, cas, bit):
     return False
 
 
+def rule_tree_write_lock(ctx, facts, rule="L11"):
+    """tree write lock: every CAS on a tree bin's lock word that sets the WRITER bit expects a word in which nobody holds the lock --
+    the constant 0, or a value s tested with `s & M == 0` where M covers WRITER and every reader count (everything but WAITER).  A
+    writer that does not wait for the readers rotates / unlinks tree nodes under a lock-free reader that is mid-descent."""
+    WRITER, WAITER = facts.const("WRITER"), facts.const("WAITER")
+    LS = ("node::TreeBin", "lock_state")
+    n = 0
+    for b in facts.bodies:
+        ev = evaluator(b)
+        for x in b.calls:
+            if is_std_atomic(x) != "compare_exchange" or LS not in receiver_field(b, x, 0) or b.is_cleanup(x.b):
+                continue
+            exp, new = ev.operand(x.args[1]), ev.operand(x.args[2])
+            sets_writer = (new is not TOP and new.is_const() and new.c.denominator == 1 and int(new.c) & WRITER) or sets_bit(b, x, WRITER)
+            if not sets_writer:
+                continue
+            n += 1
+            if exp is not TOP and exp.is_const() and exp.c == 0:
+                ctx.inst(rule, b, "write lock taken from the free word", x.span, True, "CAS(lock_state, 0 -> WRITER)")
+                continue
+            free = False
+            for blk in range(len(b.blocks)):
+                cd = cond_of(b, blk)
+                if not cd or cd["kind"] != "cmp" or cd["op"] not in ("Ne", "Eq"):
+                    continue
+                for aa, bb in ((cd["a"], cd["b"]), (cd["b"], cd["a"])):
+                    fb = ev.operand(bb)
+                    al = op_local(aa)
+                    if fb is TOP or not fb.is_const() or fb.c != 0 or al is None:
+                        continue
+                    for pt, kind, data in b.defs.get(al, []):
+                        if kind == "assign" and data["rv"].get("bin") == "BitAnd":
+                            fs = [ev.operand(data["rv"]["a"]), ev.operand(data["rv"]["b"])]
+                            has_s = any(f is not TOP and exp is not TOP and f == exp for f in fs)
+                            masks = [int(f.c) for f in fs if f is not TOP and f.is_const() and f.c.denominator == 1]
+                            if has_s and any((m | WAITER) & 0xFFFFFFFFFFFFFFFF == 0xFFFFFFFFFFFFFFFF for m in masks):
+                                free_edge = cd["false"] if cd["op"] == "Ne" else cd["true"]
+                                if dominated_by_edge(b, x.point, [(blk, free_edge)]):
+                                    free = True
+            # the same predicate spelt as equalities: s == 0 || s == WAITER
+            eq_edges = []
+            for blk in range(len(b.blocks)):
+                cd = cond_of(b, blk)
+                if not cd or cd["kind"] != "cmp" or cd["op"] not in ("Ne", "Eq"):
+                    continue
+                fa, fb = ev.operand(cd["a"]), ev.operand(cd["b"])
+                for f1, f2 in ((fa, fb), (fb, fa)):
+                    if f1 is not TOP and f2 is not TOP and exp is not TOP and f1 == exp and f2.is_const() and f2.c in (0, WAITER):
+                        eq_edges.append((blk, cd["true"] if cd["op"] == "Eq" else cd["false"]))
+            if not free and eq_edges and dominated_by_edge(b, x.point, eq_edges):
+                free = True
+            ctx.inst(rule, b, "write lock taken only when nobody holds it", x.span, free,
+                     "the expected word s satisfies s & !WAITER == 0 (no writer, no reader)" if free else
+                     "the CAS that sets WRITER expects a lock word that may still carry reader counts (no test `s & !WAITER == 0` guards it): "
+                     "the writer restructures the tree while a lock-free reader is descending it")
+    if n < 2:
+        ctx.fail_closed("%s: expected the two write-lock CAS sites (lock_root, contended_lock), found %d" % (rule, n))
+
+
 def rule_d4(ctx, facts):
     for name in ("map::HashMap::init_table", "map::HashMap::try_presize"):
         b = facts.body(name)
